@@ -66,7 +66,7 @@ func peaStats(r *core.Report, a *pea.Analysis) {
 
 // C10: caller-owned arguments are never modified.
 func C10(p *core.Program, r *core.Report) {
-	r.Explanation = "Provenance & effects analysis (PEA): every function reachable from the module (third-party code and net/url included, the rest of the standard library modelled) gets a summary of which memory regions it may write, expressed over its parameters; summaries are instantiated at call sites (function-valued parameters stay symbolic so WalkNodes-style helpers are instantiated per callback). The four entry points are instantiated with their parameters bound to the regions CallerDoc / CallerOpts (CallerURL is what Options.OriginalURL points to). M1: no store, append-in-place, copy, or mutating standard-library call may target a caller region. M2/M3: the tree-closure assumption is itself checked: a pointer into a caller region stored into a fresh object's link field (cross-link, shared Attr array, whole-struct copy) makes later stores through the fresh object count as caller stores."
+	r.Explanation = "Provenance & effects analysis (PEA): every function reachable from the module (third-party code and net/url included, the rest of the standard library modelled) gets a summary of which memory regions it may write, expressed over its parameters; summaries are instantiated at call sites (function-valued parameters stay symbolic so WalkNodes-style helpers are instantiated per callback). The four entry points are instantiated with their parameters bound to the regions CallerDoc / CallerOpts (CallerURL is what Options.OriginalURL points to). M1: no store, append-in-place, copy, or mutating standard-library call may target a caller region. M2/M3: the tree-closure assumption is itself checked: a pointer into a caller region stored into a fresh object's link field (cross-link, shared Attr array, whole-struct copy) makes later stores through the fresh object count as caller stores. M1 also sees the filter-in-place idiom through merges: an append whose destination goes back to a zero-length (constant-bounded) re-slice of storage owned by the caller's document writes that storage."
 	r.NotCovered = "reading the io.Reader/file (consuming a reader is not a modification in the property's sense); memory reached only through reflection/unsafe (none in module packages: checked by C12); flow-insensitivity may only add reports, never hide a store."
 	r.Trusted = append(r.Trusted, "standard library (except net/url, analysed from source) follows the external model: only sort/copy/atomic/buffer-like pointer-receiver methods mutate their receiver or arguments", "VTA call graph for interface calls")
 
